@@ -974,28 +974,60 @@ theorem C11_lookup_field_sound (fs : List BField) (name : String) (f : BField) (
     rw [List.mem_filter] at hm
     exact ⟨hm.1, Or.inr (by simpa using hm.2)⟩
 
-/-- finding F35: `Preload(clause.Associations, "n = ?", 7)` reaches a relation declared in an `embedded`-tagged struct with
-    the conditions TWICE, and Find(dest, "n = ?", 7, "n = ?", 7) is ill-formed (one placeholder, three arguments) -/
+/-- finding F35 (tree before the repair, `once = false`): `Preload(clause.Associations, "n = ?", 7)` reaches a relation declared
+    in an `embedded`-tagged struct with the conditions TWICE, and Find(dest, "n = ?", 7, "n = ?", 7) is ill-formed (one
+    placeholder, three arguments) -/
 theorem C11_assoc_conds_embedded_counterexample :
-    assocCondsReaching 1 ["n = ?", "7"] = ["n = ?", "7", "n = ?", "7"] ∧
-      inlineWellFormed 1 (assocCondsReaching 1 ["n = ?", "7"]) = false := by decide
+    assocCondsReaching false 1 ["n = ?", "7"] = ["n = ?", "7", "n = ?", "7"] ∧
+      inlineWellFormed 1 (assocCondsReaching false 1 ["n = ?", "7"]) = false := by decide
 
-/-- whenever the relation sits in an `embedded`-tagged struct, an inline condition with arguments is ill-formed -/
+/-- before the repair: whenever the relation sits in an `embedded`-tagged struct, an inline condition with arguments is ill-formed -/
 theorem C11_assoc_conds_embedded_illformed {α : Type} (depth k : Nat) (q : α) (as : List α) (hd : 0 < depth) (hk : as.length = k) :
-    inlineWellFormed k (assocCondsReaching depth (q :: as)) = false := by
+    inlineWellFormed k (assocCondsReaching false depth (q :: as)) = false := by
   unfold assocCondsReaching inlineWellFormed
-  rw [if_neg (by omega)]
+  rw [if_neg (by simp; omega)]
   simp only [List.cons_append, List.length_append, List.length_cons, hk]
   simp
 
 /-- outside the finding's pattern (relation declared at the top level / in an untagged anonymous struct) the conditions
-    arrive once and a well-formed inline condition stays well-formed -/
-theorem C11_assoc_conds_partial {α : Type} (args : List α) : assocCondsReaching 0 args = args := by
+    arrive once and a well-formed inline condition stays well-formed — on either tree -/
+theorem C11_assoc_conds_partial {α : Type} (once : Bool) (args : List α) : assocCondsReaching once 0 args = args := by
   simp [assocCondsReaching]
 
-theorem C11_assoc_conds_wellformed_partial {α : Type} (k : Nat) (q : α) (as : List α) (hk : as.length = k) :
-    inlineWellFormed k (assocCondsReaching 0 (q :: as)) = true := by
+theorem C11_assoc_conds_wellformed_partial {α : Type} (once : Bool) (k : Nat) (q : α) (as : List α) (hk : as.length = k) :
+    inlineWellFormed k (assocCondsReaching once 0 (q :: as)) = true := by
   simp [assocCondsReaching, inlineWellFormed, hk]
+
+/-- FULL statement on a tree with the repair of F35 (`once = true`): EVERY relation reached through clause.Associations —
+    declared at the top level or any number of `embedded`-tagged structs deep — receives the conditions exactly once -/
+theorem C11_assoc_conds_once {α : Type} (depth : Nat) (args : List α) : assocCondsReaching true depth args = args := by
+  simp [assocCondsReaching]
+
+/-- … hence an inline condition whose placeholders match its arguments reaches `Find` well-formed at every depth -/
+theorem C11_assoc_conds_wellformed {α : Type} (depth k : Nat) (q : α) (as : List α) (hk : as.length = k) :
+    inlineWellFormed k (assocCondsReaching true depth (q :: as)) = true := by
+  rw [C11_assoc_conds_once]; simp [inlineWellFormed, hk]
+
+/-- the tree as it is now (regenerated facts): the leaf appends associationsConds and the embedded recursion hands them on;
+    either parsePreloadMap stores nothing for embedded relations and every relation receives the conditions exactly once
+    (well-formed at every depth), or it stores them and the listed witness is ill-formed -/
+theorem C11_assoc_conds_current_tree :
+    Gen.assocLeafAppends = true ∧ Gen.assocEmbPassesConds = true ∧ Gen.assocCondsOnce = !Gen.assocEmbStoresArgs ∧
+    ((Gen.assocCondsOnce = true ∧
+        (∀ (depth : Nat) (args : List String), assocCondsCurrent depth args = args) ∧
+        (∀ (depth k : Nat) (q : String) (as : List String), as.length = k →
+            inlineWellFormed k (assocCondsCurrent depth (q :: as)) = true)) ∨
+     (Gen.assocCondsOnce = false ∧
+        inlineWellFormed 1 (assocCondsCurrent 1 ["n = ?", "7"]) = false)) := by
+  refine ⟨by decide, by decide, by decide, ?_⟩
+  unfold assocCondsCurrent
+  by_cases h : Gen.assocCondsOnce = true
+  · left; refine ⟨h, ?_, ?_⟩
+    · intro d a; rw [h]; exact C11_assoc_conds_once d a
+    · intro d k q as hk; rw [h]; exact C11_assoc_conds_wellformed d k q as hk
+  · right
+    have h' : Gen.assocCondsOnce = false := by simpa using h
+    refine ⟨h', ?_⟩; rw [h']; decide
 
 example : ∃ fs bn name i f, 0 < i ∧ i < List.length bn ∧ byBind fs (bn.take i ++ [name]) = some f ∧
     (∀ j, i < j → j < bn.length → byBind fs (bn.take j ++ [name]) = none) ∧ fs.length = 2 :=
